@@ -570,6 +570,7 @@ def _resolve(program, ctx_name, relpath, module_name, level, file_path=None, loa
     pol = FlowPolicy(program, may_raise_all=False, cancel=False, inline={"GlobalContext.get_name"}, globals_={"ALLOWED_IMPORTS": Const(frozenset(allowed))},
                      summaries={"self.manager.get": mget, "Function.hass.config.path": lambda i, n, a, k, c, o: [(c, Const("/cfg/pyscript"))],
                                 "Function.hass.async_add_executor_job": lookup})
+    pol.auto_inline_max_stmts = 150  # module_import may be split into helpers of any size: they are all interpreted
     heap = {"self.rel_import_path": Const(relpath), "self.name": Const(ctx_name), "self.manager": Sym(("mgr",)), "self.imports": ListV((), "set"),
             "self.auto_start": Const(False), "self.file_path": Const(file_path),
             "ctxL.module": ObjV("modL", "ModuleType"), "ctxL.name": Const(loaded), "ctxS.module": Const(None), "ctxS.name": Const(shadow)}
